@@ -1505,6 +1505,17 @@ fn fmt_grid(thorough: bool) -> Vec<String> {
 fn main() {
     kvh::quiet_panics();
     let args = Args::parse();
+    // developer aid: `c15 --probe file.koto` runs a script against the linked runtime and prints its value
+    if let Some(i) = args.extra.iter().position(|x| x == "--probe") {
+        let src = std::fs::read_to_string(&args.extra[i + 1]).expect("probe file");
+        let mut koto = Koto::with_settings(KotoSettings::default().inherit_io());
+        match kvh::catch(|| koto.compile_and_run(src.as_str())) {
+            Ok(Ok(v)) => println!("=> {}", koto.value_to_string(v).unwrap_or_default()),
+            Ok(Err(e)) => println!("ERROR: {}", e),
+            Err(p) => println!("PANIC: {}", p),
+        }
+        return;
+    }
     let mut rep = Report::new("C15", &args);
     rep.rule = "each case is one model-protocol request: (operation, subject string in a storage form, arguments); subjects: exhaustive strings over a 10-symbol alphabet (1/2/3/4-byte characters, combining mark, CR, LF, space, pattern characters, a character with a multi-character case image) up to a length bound × storage forms × all byte indices -1..len+1 and all ranges over them × every modelled operation; a self-overlapping family for the pattern-taking functions (all subjects up to 6/7 letters over {a,b,é} × all patterns up to 3 letters, periodic patterns with subjects p^k plus proper prefixes/suffixes); literals over an escape alphabet; format-option strings over an option alphabet; the format grid × values; seeded random longer strings over an extended alphabet. distinct = distinct request lines; non-trivial = subject of at least 2 characters (escape cases: contains a backslash; format cases: non-empty options)".into();
     let open: Vec<String> = rep.known_open().iter().filter_map(|e| e.get("id").and_then(|x| x.as_str()).map(|s| s.to_string())).collect();
